@@ -11,25 +11,6 @@ Local Open Scope Z_scope.
 Definition out_text (r : option (list N)) : obs :=
   match r with Some s => OBytes s | None => OTag "OutOfFuel" end.
 
-Definition class_tag (c : aclass) (shorter : bool) : string :=
-  match c, shorter with
-  | ATime, _ => "time"
-  | AYesterday, false => "yesterday_at"
-  | AYesterday, true => "yesterday"
-  | AWeekday, false => "weekday_at"
-  | AWeekday, true => "weekday"
-  | AMonthDay, false => "monthday_at"
-  | AMonthDay, true => "monthday"
-  | AFull, false => "full_at"
-  | AFull, true => "full"
-  end.
-
-Definition out_date (r : dres) : obs :=
-  match r with
-  | Rel u n => out_text (render_rel u n)
-  | Abs c sh => OTag (class_tag c sh)
-  end.
-
 Definition mk_dinput (now delta gmt : Z) (relative shorter full : bool) : dinput :=
   {| d_now := now; d_delta := delta; d_gmt := gmt;
      d_relative := relative; d_shorter := shorter; d_full := full |}.
@@ -37,8 +18,11 @@ Definition mk_dinput (now delta gmt : Z) (relative shorter full : bool) : dinput
 Definition run_case (c : c46_input) : obs :=
   match c with
   | INum en v => out_text (friendly_number en v)
-  | IDate now delta gmt relative shorter full =>
-      out_date (format_date (mk_dinput now delta gmt relative shorter full))
+  | IDate clk now delta gmt relative shorter full =>
+      out_text (date_text clk (mk_dinput now delta gmt relative shorter full))
+  | IDay date gmt dow => out_text (format_day date gmt dow)
+  | IList fa parts => out_text (locale_list fa parts)
+  | IClosest supported codes => OBytes (get_closest supported codes)
   end.
 
 (* ---------------- reading text back ---------------- *)
@@ -145,9 +129,15 @@ Definition check_num (en : bool) (v : Z) (o : obs) : bool :=
   | _ => false
   end.
 
+(* does the text end with " ago"? *)
+Definition ends_with_ago (s : list N) : bool :=
+  match rev s with
+  | o :: g :: a :: sp :: _ => ((o =? 111) && (g =? 103) && (a =? 97) && (sp =? 32))%N
+  | _ => false
+  end.
+
 Definition check_date (delta : Z) (o : obs) : bool :=
   match o with
-  | OTag t => negb (String.eqb t "OutOfFuel")  (* an absolute format: nothing is claimed about it *)
   | OBytes s =>
       match parse_phrase s with
       | Some (u, n, plural) =>
@@ -157,13 +147,21 @@ Definition check_date (delta : Z) (o : obs) : bool :=
           && (2 * Z.abs (n * unit_secs u - elapsed_seconds delta) <=? unit_secs u)
           (* English number agreement *)
           && Bool.eqb plural (negb (n =? 1))
-      | None => false      (* a string that is neither a known relative phrase nor classified *)
+      | None => negb (ends_with_ago s)   (* an absolute date; anything "... ago" must be a well-formed phrase *)
       end
   | _ => false
   end.
 
+(* the surrounding helpers: the property says nothing about their text; the
+   chosen locale must be one of the supported ones *)
 Definition check_case (c : c46_input) (o : obs) : bool :=
   match c with
   | INum en v => check_num en v o
-  | IDate _ delta _ _ _ _ => check_date delta o
+  | IDate _ _ delta _ _ _ _ => check_date delta o
+  | IDay _ _ _ | IList _ _ => match o with OBytes _ => true | _ => false end
+  | IClosest supported _ =>
+      match o with
+      | OBytes s => mem_text s supported || text_eq s default_locale
+      | _ => false
+      end
   end.
